@@ -1,0 +1,7 @@
+//go:build !verif
+
+package memory
+
+import "github.com/paulsonkoly/calc/types/value"
+
+func verifGrown(_, _ []value.Type) {}
